@@ -136,6 +136,19 @@ def gen_models(seed, quick):
         vars_ = [[nm, 0, hi] for nm in names]
         models.append({"vars": vars_, "constraints": [["cumulative", names, [3] * n, [1] * n, n - 1]], "family": "cumulative-wide"})
         models.append({"vars": vars_, "constraints": [["cumulative", names, [2] * n, [1] * n, 2]], "family": "cumulative-wide"})
+    # cumulative with heterogeneous demands: minimal overloads of different sizes ({3,3} and {3,2,1} for capacity 5)
+    for dem, cap in (([3, 3, 2, 1], 5), ([2, 2, 1, 1], 3), ([4, 2, 2, 1], 5), ([1, 2, 3, 4], 6)):
+        names = [f"h{i}" for i in range(4)]
+        for hi, durs in ((2, [2, 2, 2, 2]), (1, [2, 1, 2, 1]), (2, [1, 3, 2, 2])):
+            models.append({"vars": [[nm, 0, hi] for nm in names], "constraints": [["cumulative", names, durs, dem, cap]],
+                           "family": "cumulative-mixed-demands"})
+    for _ in range(10 if quick else 120):
+        n = rng.choice([3, 4, 5])
+        names = [f"r{i}" for i in range(n)]
+        dem = [rng.randint(1, 4) for _ in range(n)]
+        models.append({"vars": [[nm, 0, rng.choice([1, 2])] for nm in names],
+                       "constraints": [["cumulative", names, [rng.randint(1, 3) for _ in range(n)], dem, rng.randint(max(dem), sum(dem))]],
+                       "family": "cumulative-mixed-demands"})
     # the unsatisfiable cumulative instance quoted in C02
     models.append({"vars": [[f"c{i}", 0, 3] for i in range(3)], "constraints": [["cumulative", ["c0", "c1", "c2"], [3, 3, 3], [1, 1, 1], 1]], "family": "cumulative-unsat"})
     return models
